@@ -15,7 +15,7 @@ import (
 // separate symbols - so that patterns and strings can end in the middle of a character -, and U+FFFD
 // (what a decoder would put in place of an invalid byte). Cases carry symbol indexes: the texts
 // themselves do not survive a JSON replay file.
-var c13ByteAlphabet = []string{"a", "*", `\`, "\xff", "\xfe", "\xc3", "\xa9", "\xef\xbf\xbd"}
+var c13ByteAlphabet = []string{"a", "*", `\`, "\xff", "\xfe", "\xc3", "\xa9", "\xef\xbf\xbd", "\n"}
 
 type c13BytesCase struct {
 	Pat    []int `json:"pat"`
@@ -56,9 +56,9 @@ func c13BytesSub() *engine.Sub {
 	return &engine.Sub{
 		Name:   "like-on-bytes-outside-ascii",
 		Repeat: true,
-		Rule:   `every pattern x every string over the symbols {a, *, \, 0xff, 0xfe, 0xc3, 0xa9, U+FFFD}: strings that are not UTF-8, that end inside a multi-byte character, or that hold the replacement character; a string is a sequence of bytes and every byte other than an unescaped * and the escaping \ stands for itself (0xff is not 0xfe, neither is U+FFFD, and * may stand for a part of a character); constructor-built and FromIPLD-built statements; oracle = dynamic programming over bytes; non-trivial = pattern or string is not valid UTF-8`,
+		Rule:   `every pattern x every string over the symbols {a, *, \, 0xff, 0xfe, 0xc3, 0xa9, U+FFFD, line feed}: strings that are not UTF-8, that end inside a multi-byte character, or that hold the replacement character; a string is a sequence of bytes and every byte other than an unescaped * and the escaping \ stands for itself (0xff is not 0xfe, neither is U+FFFD, * may stand for a part of a character and for line feeds); constructor-built and FromIPLD-built statements; oracle = dynamic programming over bytes; non-trivial = pattern or string is not valid UTF-8`,
 		Bound: func(t string) string {
-			return fmt.Sprintf("patterns of <= %d symbols x strings of <= %d symbols over 8 symbols", tierN(t, 3, 4), tierN(t, 4, 5))
+			return fmt.Sprintf("patterns of <= %d symbols x strings of <= %d symbols over 9 symbols", tierN(t, 3, 4), tierN(t, 4, 5))
 		},
 		Gen: func(tier string, emit func(any) bool) {
 			allIndexLists(len(c13ByteAlphabet), tierN(tier, 3, 4), func(p []int) bool {
